@@ -86,6 +86,38 @@ theorem foreign_id_never_opens (hP : PrimsSecure P)
     unlock P (fieldScalars K dec enc) ctx' env' sks ≠ .opened p r :=
   unlock_foreign_binding_not_opened P hP _ secret coeff nonce ctx payload keypairs cfg env hb env' hg ctx' hne sks p r
 
+/-- **The crypto context strings bind the PAIR (envelope id, context)**: the key derivation context
+determines both operands — no two different pairs, however their bytes are shifted across the
+id/context boundary, give the same string (the strings of `envelope/crypto.go` are regenerated and
+proved equal to these for all operands, `Ties.Envelope.kd_context`). -/
+theorem kd_context_injective (envId envId' ctx ctx' : Bytes)
+    (h : kdContext envId ctx = kdContext envId' ctx') : envId = envId' ∧ ctx = ctx' :=
+  kdContext_inj envId envId' ctx ctx' h
+
+/-- … and every grant encryption context determines envelope id, context and grant index
+(`Ties.Envelope.grant_enc_context` for the regenerated string). -/
+theorem grant_context_injective (envId envId' ctx ctx' : Bytes) (gi gi' : Nat)
+    (h : grantEncContext envId ctx gi = grantEncContext envId' ctx' gi') :
+    envId = envId' ∧ ctx = ctx' ∧ gi = gi' :=
+  grantEncContext_inj envId envId' ctx ctx' gi gi' h
+
+/-- Why the length prefix of the envelope id is part of the property: with the id written verbatim
+(the context still length-prefixed) the encoding is NOT injective — the id `""` with the context
+`"a 1:b"` and the id `" 5:a"` with the context `"b"` give the same bytes (the re-split the engine
+replays on the real code for every plausible mis-framing). -/
+theorem id_length_prefix_needed :
+    ¬ ∀ envId envId' ctx ctx' : Bytes,
+        envId ++ [32] ++ lenPrefixed ctx = envId' ++ [32] ++ lenPrefixed ctx' → envId = envId' ∧ ctx = ctx' := by
+  intro h
+  have h1 := (h [] [32, 53, 58, 97] [97, 32, 49, 58, 98] [98] (by decide)).1
+  exact absurd h1 (by decide)
+
+/-! Non-vacuity: the pair of the refutation above IS told apart by the real framing. -/
+example : kdContext [] [97, 32, 49, 58, 98] ≠ kdContext [32, 53, 58, 97] [98] ∧
+    grantEncContext [] [97, 32, 49, 58, 98] 0 ≠ grantEncContext [32, 53, 58, 97] [98] 0 :=
+  ⟨fun h => absurd (kd_context_injective _ _ _ _ h).1 (by decide),
+   fun h => absurd (grant_context_injective _ _ _ _ _ _ h).1 (by decide)⟩
+
 /-- **Tampering with anything but the payload ciphertext**: let `env'` be ANY envelope that still
 carries the sealed payload ciphertext — threshold, grants (keypair indexes, ciphertexts, order,
 number), keypairs, envelope id and context hash replaced at will, one field or several — and let
